@@ -101,13 +101,21 @@ pub struct Judgement {
 // ---------------------------------------------------------------------------------------------
 // globs (restricted forms only)
 
+/// `path` ends in `.<ext>`, where `<ext>` may be an alternation `{a,b}`.
+fn has_ext(path: &str, ext: &str) -> bool {
+    match ext.strip_prefix('{').and_then(|e| e.strip_suffix('}')) {
+        Some(alts) => alts.split(',').any(|a| path.ends_with(&format!(".{a}"))),
+        None => path.ends_with(&format!(".{ext}")),
+    }
+}
+
 pub fn glob_match(pattern: &str, path: &str) -> bool {
     if pattern == "**" || pattern == "**/*" {
         return true;
     }
     if let Some(rest) = pattern.strip_prefix("**/") {
         if let Some(ext) = rest.strip_prefix("*.") {
-            return path.ends_with(&format!(".{ext}"));
+            return has_ext(path, ext);
         }
         if rest.contains('[') || rest.contains('{') {
             return false; // `[id]` / `{slug}` are pattern syntax, not the literal file name
@@ -120,10 +128,10 @@ pub fn glob_match(pattern: &str, path: &str) -> bool {
     if let Some(pos) = pattern.find("/**/*.") {
         let dir = &pattern[..pos];
         let ext = &pattern[pos + 6..];
-        return path.starts_with(&format!("{dir}/")) && path.ends_with(&format!(".{ext}"));
+        return path.starts_with(&format!("{dir}/")) && has_ext(path, ext);
     }
     if let Some(ext) = pattern.strip_prefix("*.") {
-        return path.ends_with(&format!(".{ext}"));
+        return has_ext(path, ext);
     }
     // an "exact path" that contains glob metacharacters is still a pattern: `[id]` is a character
     // class and `{slug}` an alternation, neither matches the file of that literal name
